@@ -9,3 +9,13 @@ package zero
 //@   ensures zeroed: forall j int :: 0 <= j && j < len(b) ==> b[j] == 0
 //@   loop i invariant zeroed-prefix: forall j int :: 0 <= j && j <= #rangeindex ==> b[j] == 0
 //@   loop i decreases len(b) - #rangeindex
+
+//@ func Bytea32
+//@   requires b != nil
+//@   modifies b[*]
+//@   ensures zeroed: forall j int :: 0 <= j && j < 32 ==> b[j] == 0
+
+//@ func Bytea64
+//@   requires b != nil
+//@   modifies b[*]
+//@   ensures zeroed: forall j int :: 0 <= j && j < 64 ==> b[j] == 0
